@@ -180,9 +180,12 @@ fn main() {
             }
             // primitives against a spec computed from pairwise == and cmp
             let rounds = (n / 20).max(20);
-            for _ in 0..rounds {
-                let len = 1 + r.below(7);
-                let items: Vec<Value> = (0..len).map(|_| pool[r.below(m)].clone()).collect();
+            for round in 0..rounds {
+                // every fourth round: a long list over few distinct values (many ties; sorting
+                // algorithms switch strategy above ~20 elements)
+                let (len, span) = if round % 4 == 3 { (21 + r.below(60), 2 + r.below(4)) } else { (1 + r.below(7), m) };
+                let base = r.below(m);
+                let items: Vec<Value> = (0..len).map(|_| pool[(base + r.below(span)) % m].clone()).collect();
                 evals += 1;
                 let list = boxes(&[len], items.clone());
                 prim_checks(&list, &items, &report);
